@@ -965,3 +965,101 @@ def derived_strings(h):
                 if sorted(parse(q.GetUnit())) != sorted((u, e) for u, e in ju if e != 0):
                     return {"reproduced": True, "call": "parse(%r)" % q.GetUnit(), "observed": parse(q.GetUnit()), "expected": ju}
     return {"reproduced": False}
+
+
+@probe("unit_system_manager")
+def unit_system_manager(h):
+    """C17: histories of the unit-system manager with a listener log and an invariant check after every step"""
+    from barril.units.unit_system_manager import UnitSystemManager
+    from barril.units import Scalar
+
+    def fresh():
+        m = UnitSystemManager()
+        log = []
+        m.on_current.Register(lambda s: log.append(("current", s.GetId())))
+        m.on_unit_changed.Register(lambda c, u: log.append(("unit", c, u)))
+        return m, log
+
+    def inv(m, systems):
+        bad = []
+        for i, s in m.GetUnitSystems().items():
+            if s.GetId() != i:
+                bad.append("system stored under %r has id %r" % (i, s.GetId()))
+        cur = m.GetCurrent()
+        if cur.GetId() is not None and not any(cur is s for s in m.GetUnitSystems().values()):
+            bad.append("current system %r is not registered" % cur.GetId())
+        return bad
+
+    # 1. removing a system while none is current
+    m, log = fresh()
+    a = m.AddUnitSystem("a", "A", {"length": "m"})
+    m.current = None
+    del log[:]
+    before = list(m.GetUnitSystems())
+    try:
+        m.RemoveUnitSystem("a")
+    except Exception as e:
+        return {"reproduced": True, "call": "RemoveUnitSystem('a') with no current system", "observed": "%r; systems before %r, after %r" % (e, before, list(m.GetUnitSystems())), "expected": "the system is removed (or the call is rejected and nothing changes)"}
+    if "a" in m.GetUnitSystems() or log:
+        return {"reproduced": True, "call": "RemoveUnitSystem('a') with no current system", "observed": [list(m.GetUnitSystems()), log], "expected": "removed, no notification"}
+    # 2. two systems built from one dict must not share it
+    m, log = fresh()
+    d = {"length": "m"}
+    a = m.AddUnitSystem("a", "A", d)
+    b = m.AddUnitSystem("b", "B", d)
+    del log[:]
+    b.SetDefaultUnit("length", "cm")
+    if a.GetDefaultUnit("length") != "m" or d != {"length": "m"} or log:
+        return {"reproduced": True, "call": "b.SetDefaultUnit('length','cm') where a (current) and b were added with the same dict", "observed": {"a": a.GetDefaultUnit("length"), "caller dict": d, "notifications": log}, "expected": "a and the caller's dict unchanged, no notification (b is not current)"}
+    # 3. a longer history with notifications
+    m, log = fresh()
+    steps = [
+        ("add a", lambda: m.AddUnitSystem("a", "A", {"length": "m", "time": "s"}), [("current", "a")]),
+        ("add b", lambda: m.AddUnitSystem("b", "B", {"length": "cm", "time": "min"}), []),
+        ("add a again", lambda: m.AddUnitSystem("a", "A2", {}), "raise"),
+        ("b.SetDefaultUnit", lambda: m.GetUnitSystemById("b").SetDefaultUnit("length", "km"), []),
+        ("a.SetDefaultUnit", lambda: m.GetUnitSystemById("a").SetDefaultUnit("length", "ft"), [("unit", "length", "ft")]),
+        ("current = b", lambda: setattr(m, "current", m.GetUnitSystemById("b")), [("current", "b")]),
+        ("a.SetDefaultUnit (not current)", lambda: m.GetUnitSystemById("a").SetDefaultUnit("length", "m"), []),
+        ("b.RemoveCategory", lambda: m.GetUnitSystemById("b").RemoveCategory("time"), [("unit", "time", None)]),
+        ("template", lambda: m.SetTemplateUnitSystemByUnitsMapping({"length": "m"}), []),
+        ("template not covered", lambda: m.SetTemplateUnitSystemByUnitsMapping({"mass": "kg"}), "raise"),
+        ("add c without length", lambda: m.AddUnitSystem("c", "C", {"time": "s"}), "raise"),
+        ("remove b (current)", lambda: m.RemoveUnitSystem("b"), [("current", "a")]),
+        ("current = None", lambda: setattr(m, "current", None), [("current", None)]),
+        ("a.SetDefaultUnit (no current)", lambda: m.GetUnitSystemById("a").SetDefaultUnit("length", "mm"), []),
+        ("add d (none current)", lambda: m.AddUnitSystem("d", "D", {"length": "m"}), [("current", "d")]),
+        ("a.SetDefaultUnit (d current)", lambda: m.GetUnitSystemById("a").SetDefaultUnit("length", "in"), []),
+        ("remove d (current)", lambda: m.RemoveUnitSystem("d"), [("current", "a")]),
+        ("remove a (last)", lambda: m.RemoveUnitSystem("a"), [("current", None)]),
+    ]
+    for name, f, expect in steps:
+        del log[:]
+        ids0 = list(m.GetUnitSystems())
+        cur0 = m.GetCurrent().GetId()
+        try:
+            f()
+            raised = False
+        except Exception as e:
+            raised = True
+            if expect != "raise":
+                return {"reproduced": True, "call": name, "observed": repr(e), "expected": "accepted, notifications %r" % (expect,)}
+            if list(m.GetUnitSystems()) != ids0 or m.GetCurrent().GetId() != cur0 or log:
+                return {"reproduced": True, "call": name + " (rejected)", "observed": [list(m.GetUnitSystems()), m.GetCurrent().GetId(), log], "expected": "nothing changes"}
+        if expect == "raise" and not raised:
+            return {"reproduced": True, "call": name, "observed": "accepted", "expected": "rejected"}
+        if expect != "raise" and log != expect:
+            return {"reproduced": True, "call": name, "observed": log, "expected": expect}
+        bad = inv(m, None)
+        if bad:
+            return {"reproduced": True, "call": name, "observed": bad, "expected": "manager invariant"}
+    # 4. ConvertToCurrent / ConvertScalarToCurrent
+    m, log = fresh()
+    m.AddUnitSystem("a", "A", {"depth": "km", "length": "cm"})
+    r = m.ConvertToCurrent("depth", "m", 1500.0)
+    if r != (1.5, "km") or m.ConvertToCurrent("time", "s", 2.0) != (2.0, "s"):
+        return {"reproduced": True, "call": "ConvertToCurrent", "observed": r, "expected": (1.5, "km")}
+    s = m.ConvertScalarToCurrent(Scalar(1500.0, "m", "depth"))
+    if (s.GetValue(), s.GetUnit(), s.GetCategory()) != (1.5, "km", "depth"):
+        return {"reproduced": True, "call": "ConvertScalarToCurrent(Scalar(1500.0, 'm', 'depth'))", "observed": repr(s), "expected": "Scalar(1.5, 'km', 'depth')"}
+    return {"reproduced": False}
